@@ -319,3 +319,195 @@ class C03(PropDef):
                     area[o + 4:o + 8] = u32(rng.choice([0, 4, 7, len(area) - o + 1, len(area) - o + 8, rng.getrandbits(32)]))
                 cases.append("WALK %s %s %s" % (kind, hx(bytes(area)), rand_ops(rng, rng.randrange(5, 40))))
         return cases
+
+
+# =========================================================================== C20
+
+def expected_sig(fn, v):
+    """Independent transcription of the property text (not of the model) for the per-value signatures."""
+    if fn == "tt":
+        idx = v if v <= 21 else 22
+        bits = 1 | 2 | 4 | 8 | 16 | 32 | 512 | 1024
+        return (idx << 48) ^ (bits << 32) ^ v ^ (v << 7)
+    if fn == "mat":
+        idx = v if 1 <= v <= 5 else 0
+        return (idx << 48) ^ (3 << 32) ^ v
+    if fn == "elf":
+        if v <= 11:
+            return v
+        if 0x60000000 <= v <= 0x6FFFFFFF:
+            return 0x60000000
+        if 0x70000000 <= v <= 0x7FFFFFFF:
+            return 0x70000000
+        return 0
+    if fn == "rnd":
+        return (v + 7) // 8 * 8
+    if fn in ("cks0", "cks4"):
+        a = 4 if fn == "cks4" else 0
+        c1 = (-(0xE85250D6 + a + v)) % (1 << 32)
+        m2 = (v * 2654435761) % (1 << 32)
+        c2 = (-(m2 + a + v)) % (1 << 32)
+        return c1 ^ (c2 << 32)
+    raise ValueError(fn)
+
+
+def expand_block_sigs(fn, block, config):
+    import subprocess
+    lo = block << 20
+    r = subprocess.run([core.harness_bin(config), "sigs", fn, str(lo), str(1 << 20)], capture_output=True, text=True)
+    for line in r.stdout.split("\n"):
+        t = line.split()
+        if len(t) == 2:
+            v = int(t[0])
+            got = int(t[1], 16)
+            exp = expected_sig(fn, v)
+            if got != exp:
+                return {"case": "SIG %s %d" % (fn, v), "impl": "%016x" % got, "spec": "%016x" % exp}
+    if r.returncode != 0:
+        return {"case": "SIG %s block %d" % (fn, block), "impl": "crash rc=%d" % r.returncode, "spec": "no crash"}
+    return None
+
+
+@register
+class C20(PropDef):
+    id = "C20"
+    blocks_exhaustive = True
+    rule = ("block hashes of per-value signatures (variant index, round-trip value, value through the id wrapper, the six "
+            "equality impls on equal and on differing operands) for TagType/TagTypeId, MemoryAreaType/MemoryAreaTypeId and "
+            "the ELF section-type classification (through a real ElfSectionsTag), over blocks of 2^20 consecutive u32 values: "
+            "quick = all boundary blocks + 48 seeded random blocks, thorough = all 4096 blocks (every u32); FBT: all 256 "
+            "framebuffer type bytes through FramebufferTag::buffer_type; MAGIC: the two exported constants. "
+            "Non-trivial = distinct FBT/MAGIC cases (blocks are counted in evaluations).")
+    assumptions = ["FNV-1a-64 block hashes: a collision could hide a single differing value"]
+
+    def gen(self, tier, rng):
+        return ["MAGIC"] + ["FBT %d" % b for b in range(256)]
+
+    def block_plan(self, tier, rng):
+        bl = block_list(tier, rng)
+        return [("tt", bl), ("mat", bl), ("elf", bl)]
+
+    def expand_block(self, fn, block, config, workdir):
+        return expand_block_sigs(fn, block, config)
+
+
+# =========================================================================== C10
+
+HMAGIC = 0xE85250D6
+
+
+def header_region(magic, arch, length, checksum, rng, mem=None):
+    n = max(16, length) if mem is None else mem
+    b = bytearray(rbytes(rng, n))
+    b[0:4] = u32(magic)
+    b[4:8] = u32(arch)
+    b[8:12] = u32(length)
+    b[12:16] = u32(checksum)
+    return bytes(b)
+
+
+def cksum(m, a, l):
+    return (-(m + a + l)) % (1 << 32)
+
+
+@register
+class C10(PropDef):
+    id = "C10"
+    blocks_exhaustive = True
+    rule = ("HLOAD: null pointer; every declared length 0..80 x both architectures x {correct, off-by-one, bit-flipped, "
+            "zero, random} checksum x {correct, bit-flipped, byte-swapped, zero} magic, memory = max(16, length) bytes flush "
+            "against a guard page, lengths up to 64 KiB sampled; CKS: checksum for boundary and random (magic, arch, length); "
+            "block hashes of calc_checksum(MAGIC, arch, v) and calc_checksum(v*2654435761, arch, v) for both architectures "
+            "(thorough: all 2^32 lengths). Non-trivial = distinct cases not ending in ShorterThanHeader/Null.")
+    assumptions = ["the pointer is 8-aligned, the declared length is readable, the architecture word is 0 or 4 (hypotheses of the property)"]
+    trivial_prefixes = ("err:ShorterThanHeader", "err:Null")
+
+    def gen(self, tier, rng):
+        cases = ["HLOAD 1 -", "HLOAD 1 " + hx(header_region(HMAGIC, 0, 16, cksum(HMAGIC, 0, 16), rng))]
+        top = 80 if tier == "quick" else 200
+        for length in list(range(0, top + 1)) + list(range(top + 8, 6 * top, 8)):
+            for arch in (0, 4):
+                good = cksum(HMAGIC, arch, length)
+                cks = [good] if length % 8 else [good, good, (good + 1) % 2**32, good ^ 0x80000000, 0, rng.getrandbits(32), (good - 1) % 2**32]
+                for ck in cks:
+                    cases.append("HLOAD 0 " + hx(header_region(HMAGIC, arch, length, ck, rng)))
+                if length % 8 == 0:
+                    for magic in (HMAGIC ^ 1, HMAGIC ^ 0x80000000, 0xD65052E8, 0, 0x36D76289):
+                        cases.append("HLOAD 0 " + hx(header_region(magic, arch, length, cksum(magic, arch, length), rng)))
+        for _ in range(60 if tier == "quick" else 600):
+            length = rng.choice([rng.randrange(0, 1 << 16), rng.randrange(0, 1 << 13) * 8])
+            arch = rng.choice([0, 4])
+            magic = rng.choice([HMAGIC, HMAGIC, HMAGIC, rng.getrandbits(32)])
+            ck = rng.choice([cksum(magic, arch, length), cksum(magic, arch, length), rng.getrandbits(32)])
+            cases.append("HLOAD 0 " + hx(header_region(magic, arch, length, ck, rng)))
+        for m in (0, 1, HMAGIC, 0x7FFFFFFF, 0x80000000, 0xFFFFFFFF):
+            for a in (0, 4):
+                for l in (0, 1, 2, 16, 0x7FFFFFFF, 0x80000000, 0xFFFFFFFE, 0xFFFFFFFF, (-m) % 2**32, (-m - a) % 2**32, (-m - a + 1) % 2**32):
+                    cases.append("CKS %d %d %d" % (m, a, l))
+        for _ in range(300):
+            cases.append("CKS %d %d %d" % (rng.getrandbits(32), rng.choice([0, 4]), rng.getrandbits(32)))
+        return cases
+
+    def block_plan(self, tier, rng):
+        bl = block_list(tier, rng)
+        return [("cks0", bl), ("cks4", bl)]
+
+    def expand_block(self, fn, block, config, workdir):
+        return expand_block_sigs(fn, block, config)
+
+
+# =========================================================================== C13
+
+def find_case(length, items, mis=0):
+    sp = ",".join("%d:%s" % (o, b.hex()) for o, b in items if b) or "-"
+    return "FIND %d %d %s" % (mis, length, sp)
+
+
+@register
+class C13(PropDef):
+    id = "C13"
+    rule = ("FIND: buffers of every length 0..80 and around 8192/16384 (every length within +-16 of the window bounds), "
+            "zero-filled with a magic at every position 0..40 and 8150..8200 (aligned, misaligned, straddling the window end "
+            "and the buffer end), stored header lengths {0, 8, 16, fits exactly, one too many, huge}, a second magic behind the "
+            "first, partial magics; random sparse buffers. Non-trivial = distinct cases whose outcome is not `none`.")
+    assumptions = ["the buffer start is 8-aligned (hypothesis of the property); usize = 64 bit"]
+    trivial_prefixes = ("none",)
+
+    def canon(self, line):
+        return "err" if line.startswith("err:") else line
+
+    def gen(self, tier, rng):
+        cases = []
+        magic = u32(HMAGIC)
+
+        def hdr(length_word):
+            return magic + u32(0) + u32(length_word) + u32(cksum(HMAGIC, 0, length_word))
+
+        lens = list(range(0, 81)) + list(range(8192 - 16, 8192 + 17)) + list(range(16384 - 8, 16384 + 9)) + [4096, 12288, 8192 + 40]
+        for n in lens:
+            cases.append(find_case(n, []))
+            cases.append(find_case(n, [(max(0, n - 3), magic[:3])]))
+            for pos in sorted(set([0, 1, 7, 8, 9, 16, n - 16, n - 12, n - 11, n - 8, n - 5, n - 4, n - 3, 8176, 8184, 8185, 8188, 8189, 8192])):
+                if pos < 0 or pos > n:
+                    continue
+                for lw in (0, 16, n - pos, n - pos + 1, 0xFFFFFFFF, 24):
+                    cases.append(find_case(n, [(pos, hdr(max(0, lw)))]))
+        positions = list(range(0, 41)) + list(range(8150, 8201))
+        for n in (64, 8192, 8200, 9000, 16384):
+            for pos in positions:
+                if pos > n:
+                    continue
+                for lw in (16, 40, n - pos, n - pos + 8):
+                    cases.append(find_case(n, [(pos, hdr(lw))]))
+                cases.append(find_case(n, [(pos, hdr(16)), (pos + 24, hdr(16))]))
+                cases.append(find_case(n, [(pos, magic[:3] + b"\x00"), (pos + 8, hdr(16))]))
+        for _ in range(200 if tier == "quick" else 3000):
+            n = rng.choice([rng.randrange(0, 200), rng.randrange(8000, 8400), rng.randrange(0, 16384)])
+            items = []
+            for _ in range(rng.randrange(0, 4)):
+                pos = rng.choice([rng.randrange(0, max(1, n)), rng.randrange(0, max(1, n // 8 + 1)) * 8])
+                items.append((pos, rng.choice([hdr(rng.choice([0, 8, 16, 64, n, rng.getrandbits(32)])), magic, magic[:rng.randrange(1, 4)], rbytes(rng, 8)])))
+            cases.append(find_case(n, items))
+        for mis in (1, 4, 7):
+            cases.append(find_case(64, [(8, hdr(16))], mis))
+        return cases
